@@ -17,26 +17,24 @@ Theorem C05_parse_serialize :
 Proof. exact parse_serialize. Qed.
 Print Assumptions C05_parse_serialize.
 
-(* Full statement of totality:  forall s, (exists m, parse vt s = Ok m) \/ parse vt s = Raise MalformedIrcMsg.
-   The pinned code violates it (finding F3); proved: it holds on the decidable
-   domain parse_dom, it fails on a witness outside, and nothing but that
-   TypeError ever escapes. *)
-Theorem C05_parse_total_on_domain :
-  forall vt s, parse_dom s = true ->
-  (exists m, parse vt s = Ok m) \/ parse vt s = Raise MalformedIrcMsg.
-Proof. exact parse_total_on_domain. Qed.
-Print Assumptions C05_parse_total_on_domain.
+(* Totality: whatever string the server sends, constructing the message either
+   succeeds or raises MalformedIrcMsg; nothing else escapes.  (Until the repair
+   of finding C05.F3 -- a `time` tag without value -- this held only on a domain;
+   the except clause of IrcMsg.__init__ is regenerated into T05.PARSE_CATCHES.) *)
+Theorem C05_parse_total :
+  forall vt s, (exists m, parse vt s = Ok m) \/ parse vt s = Raise MalformedIrcMsg.
+Proof. exact parse_total. Qed.
+Print Assumptions C05_parse_total.
 
-Theorem C05_parse_total_refuted :
-  forall vt, exists s, parse_dom s = false /\ parse vt s = Raise TypeError.
-Proof. intro vt. exists witness_typeerror. exact (parse_total_refuted vt). Qed.
-Print Assumptions C05_parse_total_refuted.
-
-Theorem C05_parse_exn_classes :
-  forall vt s e, parse vt s = Raise e ->
-  e = MalformedIrcMsg \/ (e = TypeError /\ parse_dom s = false).
+Theorem C05_parse_exn_classes : forall vt s e, parse vt s = Raise e -> e = MalformedIrcMsg.
 Proof. exact parse_exn_classes. Qed.
 Print Assumptions C05_parse_exn_classes.
+
+(* non-vacuity / regression witness: the line of the repaired finding is rejected cleanly *)
+Theorem C05_valueless_time_rejected :
+  forall vt, time_valueless_line witness_typeerror = true /\ parse vt witness_typeerror = Raise MalformedIrcMsg.
+Proof. exact valueless_time_rejected. Qed.
+Print Assumptions C05_valueless_time_rejected.
 
 (* Re-serialising a parsed line gives back that line (the parser only ever
    appends the missing final LF). *)
